@@ -798,25 +798,74 @@ def _find_script_path(tokens: list[str], cwd: Path) -> tuple[Path | None, int]:
     return None, -1
 
 
-def _own_options(tokens: list[str]) -> list[str]:
-    """Python's own options: everything before the script, up to -c/-m.
+# Python's short options (Python/getopt.c)
+_SHORT_WITH_ARG = "cmWX"
+_KNOWN_OPTIONS = frozenset(
+    {"-" + c for c in "bBdEIOPqRsStuv" "h?V" "icmWXx"}
+    | {
+        "--help",
+        "--version",
+        "--help-all",
+        "--help-env",
+        "--help-xoptions",
+        "--check-hash-based-pycs",
+    }
+)
+_INFO_OPTIONS = frozenset(
+    {
+        "-h",
+        "-?",
+        "-V",
+        "--help",
+        "--version",
+        "--help-all",
+        "--help-env",
+        "--help-xoptions",
+    }
+)
 
-    The interpreter stops reading options at -c CODE, -m MODULE, "-" or the
-    first non-option; what follows belongs to the program being run.
+
+def _scan_options(tokens: list[str]) -> tuple[set[str], int, str | None, str | None]:
+    """Read python's own options the way CPython does.
+
+    Short options can be clustered (-Bi), option arguments are attached (-Wd,
+    -cCODE) or separate (-W d), "--" ends the options, and options end at
+    -c CODE, -m MODULE, "-" or the first non-option.
+
+    Returns (seen, index, mode, arg): the options seen (option arguments are
+    not options), the index of the program token, and for -c / -m the mode and
+    its argument.
     """
+    seen: set[str] = set()
     i = 1
     while i < len(tokens):
         token = tokens[i]
-        if token in ("-c", "-m"):
-            return tokens[: i + 1]
-        if token in FLAGS_WITH_ARG:
-            i += 2
-            continue
-        if token.startswith("-") and token != "-":
+        if not token.startswith("-") or token == "-":
+            break
+        if token == "--":
             i += 1
+            break
+        if token.startswith("--"):
+            seen.add(token)
+            i += 2 if token == "--check-hash-based-pycs" else 1
             continue
-        return tokens[:i]
-    return tokens
+        j = 1
+        while j < len(token):
+            opt = token[j]
+            seen.add("-" + opt)
+            if opt in _SHORT_WITH_ARG:
+                attached = token[j + 1 :]
+                if opt in "cm":
+                    if attached:
+                        return seen, i, "-" + opt, attached
+                    arg = tokens[i + 1] if i + 1 < len(tokens) else None
+                    return seen, i + 1, "-" + opt, arg
+                if not attached:
+                    i += 1
+                break
+            j += 1
+        i += 1
+    return seen, i, None, None
 
 
 def get_description(tokens: list[str]) -> str:
@@ -864,40 +913,48 @@ def classify(ctx: HandlerContext) -> Classification:
         return Classification("ask", description=f"{tokens[0]} interactive")
 
     # Options after the script name (or after -c/-m) are the program's, not python's
-    own = _own_options(tokens)
+    seen, idx, mode, arg = _scan_options(tokens)
 
-    # Check for safe flags first
-    for token in own[1:]:
-        if token in SAFE_FLAGS:
+    # An option CPython does not know: it would refuse to start, but do not guess
+    if not seen <= _KNOWN_OPTIONS:
+        return Classification("ask", description=desc)
+
+    # Help / version: CPython prints and exits, whatever else is on the line
+    if seen & _INFO_OPTIONS:
+        return Classification("allow", description=desc)
+
+    # -c (inline code) - too hard to analyze reliably
+    if mode == "-c":
+        return Classification("ask", description=desc)
+
+    # -i (REPL afterwards) and -x (first source line skipped) change what runs
+    if "-i" in seen or "-x" in seen:
+        return Classification("ask", description=desc)
+
+    # -m (module) - could run arbitrary code
+    if mode == "-m":
+        # Only calendar is truly inert (just prints output, no I/O or code exec)
+        # - timeit: executes its argument as code
+        # - json.tool: reads files
+        # - pydoc: imports modules (executes top-level code)
+        # ... unless the command's directory has a calendar of its own (-m puts it
+        # first on sys.path)
+        if (
+            arg == "calendar"
+            and not (cwd / "calendar.py").exists()
+            and not (cwd / "calendar").is_dir()
+        ):
             return Classification("allow", description=desc)
-
-    # Check for -c (inline code) - too hard to analyze reliably
-    if "-c" in own:
         return Classification("ask", description=desc)
 
-    # Check for -m (module) - could run arbitrary code
-    if "-m" in own:
-        idx = own.index("-m")
-        if idx + 1 < len(tokens):
-            module = tokens[idx + 1]
-            # Only calendar is truly inert (just prints output, no I/O or code exec)
-            # - timeit: executes its argument as code
-            # - json.tool: reads files
-            # - pydoc: imports modules (executes top-level code)
-            if module == "calendar":
-                return Classification("allow", description=desc)
+    # No script ("python -B"), or "-": the program comes from stdin
+    if idx >= len(tokens) or tokens[idx] == "-":
         return Classification("ask", description=desc)
 
-    # Check for -i (interactive after script)
-    if "-i" in own:
-        return Classification("ask", description=desc)
-
-    # Find and analyze script
-    script_path, _ = _find_script_path(tokens, cwd)
-
-    if script_path is None:
-        # No script found - might be just flags
-        return Classification("ask", description=desc)
+    script_path = Path(tokens[idx])
+    if not script_path.is_absolute():
+        script_path = cwd / script_path
+    script_path = script_path.resolve()
 
     # Try to analyze the script
     is_safe, reason = analyze_python_file(script_path)
